@@ -86,7 +86,7 @@ package core
 //@   ensures[C06] @debit result == nil ==> bal == store(old(bal), sender, old(bal[sender]) - cost)
 //@   ensures[C06] @pool result == nil ==> uint64(*st.gp) == old(uint64(*st.gp)) - msg_gas(st.msg) && st.gas == old(st.gas) + msg_gas(st.msg) && st.initialGas == msg_gas(st.msg)
 //@   ensures[C06] @unchanged result != nil ==> bal == old(bal) && *st.gp == old(*st.gp) && st.gas == old(st.gas)
-//@   ensures[C06] nonces == old(nonces)
+//@   assigns st.gas, st.initialGas, *st.gp, bal
 //@   nopanic[C06]
 
 // Nonce rule: with nonce checking on, the transaction is refused unless the sender's nonce
@@ -95,6 +95,8 @@ package core
 //@   requires stok(st)
 //@   ensures[C06] @nonce result == nil && msg_checknonce(st.msg) ==> old(nonces[msg_from(st.msg)]) == msg_nonce(st.msg)
 //@   ensures[C06] @wrongnonce msg_checknonce(st.msg) && old(nonces[msg_from(st.msg)]) != msg_nonce(st.msg) ==> result != nil && bal == old(bal) && *st.gp == old(*st.gp)
+//@   ensures[C06] @bought result == nil ==> uint64(*st.gp) == old(uint64(*st.gp)) - msg_gas(st.msg) && st.gas == old(st.gas) + msg_gas(st.msg) && st.initialGas == msg_gas(st.msg) && old(uint64(*st.gp)) >= msg_gas(st.msg)
+//@   assigns st.gas, st.initialGas, *st.gp, bal
 //@   nopanic[C06]
 
 // Refund: capped at half of the gas consumed and at the refund counter; the sender gets the
@@ -108,4 +110,30 @@ package core
 //@   ensures[C06] @exact st.gas - old(st.gas) == ite(used / 2 > refundctr, refundctr, used / 2)
 //@   ensures[C06] @credit bal == store(old(bal), sender, old(bal[sender]) + U(st.gas) * old(big(st.gasPrice)))
 //@   ensures[C06] @pool uint64(*st.gp) == old(uint64(*st.gp)) + st.gas && st.initialGas == old(st.initialGas)
+//@   assigns st.gas, *st.gp, bal
+//@   nopanic[C06]
+
+//@ type Message.To
+//@   trusted
+//@   assigns nothing
+//@ type Message.Value
+//@   trusted
+//@   assigns nothing
+//@ type Message.Data
+//@   trusted
+//@   assigns nothing
+//@ type Message.GasPrice
+//@   trusted
+//@   assigns nothing
+
+// The whole transition: a wrong nonce is a consensus error; on success the gas reported as used
+// is what was bought minus what is left (never more than the gas limit), the block pool ends
+// debited by exactly the used gas, and 'failed' reports the VM error.
+//@ func StateTransition.TransitionDb
+//@   requires stok(st) && st.evm != nil && st.evm.chainConfig != nil && st.gas == 0 && st.initialGas == 0
+//@   requires wide(uint64(*st.gp), 128) <= 9223372036854775807
+//@   ensures[C06] @wrongnonce msg_checknonce(st.msg) && old(nonces[msg_from(st.msg)]) != msg_nonce(st.msg) ==> err != nil
+//@   ensures[C06] @used err == nil ==> usedGas == st.initialGas - st.gas && usedGas <= msg_gas(st.msg) && st.initialGas == msg_gas(st.msg)
+//@   ensures[C06] @pool err == nil ==> uint64(*st.gp) == old(uint64(*st.gp)) - usedGas
+//@   ensures[C06] @gaslimit err == nil ==> old(uint64(*st.gp)) >= msg_gas(st.msg)
 //@   nopanic[C06]
